@@ -26,7 +26,10 @@ def bound_for(solver, test, g, eps):
 FORCED = [("vi", "span", "twosink"), ("pi", "span", "twosink"), ("vi", "span", "cost"), ("vi", "max_diff", "twosink"), ("semi", "max_diff", "twosink"),
           ("pi", "max_diff", "cost"), ("vi", "span", "twosink"), ("semi", "max_diff", "cost"),
           # near-ties: a slightly worse copy of an action at a lower index; a tolerance-based arg-max keeps it and the policy looks stable
-          ("pi", "span", "random", True), ("pi", "max_diff", "unichain", True), ("vi", "span", "random", True), ("semi", "max_diff", "random", True)]
+          ("pi", "span", "random", True), ("pi", "max_diff", "unichain", True), ("vi", "span", "random", True), ("semi", "max_diff", "random", True),
+          # integer-typed initial estimates (`initial_value` returning an int): every solver must still compute in floating point
+          ("semi", "max_diff", "random", False, "intinit"), ("semi", "max_diff", "unichain", False, "intinit"), ("vi", "max_diff", "random", False, "intinit"),
+          ("pi", "max_diff", "random", False, "intinit")]
 
 
 def gen_case(rng, i, tier):
@@ -35,10 +38,15 @@ def gen_case(rng, i, tier):
     forced = FORCED[i] if i < len(FORCED) else None
     if forced:
         solver, kind = forced[0], forced[2]
-    near = bool(forced and len(forced) > 3)
+    near = bool(forced and len(forced) > 3 and forced[3])
+    intinit = bool(forced and len(forced) > 4)
     spec = gen.gen_spec(rng, smax=10 if tier == "quick" else 30, kind=kind, S=(rng.randint(3, 10) if forced else None),
                         A=(rng.choice([2, 3, 4]) if near else None), near_tie=(True if near else None),
-                        denom=rng.choice([4, 8]), R=rng.choice([10, 1000] if forced else [1, 10, 1000, 10 ** 6]))
+                        denom=rng.choice([4, 8]), R=rng.choice([10, 1000] if forced else [1, 10, 1000, 10 ** 6]),
+                        init=(True if intinit else None), tiny=(False if intinit else None))
+    if intinit:
+        spec["init_dtype"] = "int32"
+        spec["_tags"] = [t for t in spec["_tags"] if not t.startswith("init-")] + ["init-int32"]
     S = spec_size(spec)
     g = rng.choice(["1/2", "3/4", "7/8", "9/10", "99/100", "15/16"])
     eps = rng.choice(["1/1000000", "1/1000", "1/100", "1/2", "1", "10", "99"])
@@ -53,7 +61,7 @@ def gen_case(rng, i, tier):
         op["budget"] = rng.choice([1, 2, 5, 100, 100, 10000])
         op["reset"] = rng.randint(0, 1)
     if solver == "semi":
-        op["shuffle"] = rng.randint(0, 1)
+        op["shuffle"] = 1 if intinit else rng.randint(0, 1)
         op["random_seed"] = rng.randint(0, 100)
         op["test"] = forced[1] if forced else rng.choice(["max_diff", "max_diff", "span"])
     return spec, op
